@@ -56,9 +56,29 @@ fn long_len(r: &mut Rng) -> usize {
     }
 }
 
+thread_local! {
+    /// bytes of long tokens drawn for the message being built (long mode budget)
+    static LONG_BUDGET: std::cell::Cell<usize> = std::cell::Cell::new(0);
+}
+const LONG_BUDGET_MAX: usize = 160 * 1024;
+
+fn long_allowed(n: usize) -> bool {
+    LONG_BUDGET.with(|b| {
+        if b.get() + n > LONG_BUDGET_MAX {
+            false
+        } else {
+            b.set(b.get() + n);
+            true
+        }
+    })
+}
+
 fn len_tok(r: &mut Rng, sw: &Swarm) -> usize {
     if sw.long && r.chance(1, 6) {
-        return long_len(r);
+        let n = long_len(r);
+        if long_allowed(n) {
+            return n;
+        }
     }
     if r.chance(sw.long_tok, 16) {
         if r.chance(1, 5) {
@@ -122,8 +142,9 @@ fn target(r: &mut Rng, sw: &Swarm) -> Vec<u8> {
 }
 
 fn value(r: &mut Rng, sw: &Swarm) -> Vec<u8> {
-    let n = if sw.long && r.chance(1, 6) {
-        long_len(r)
+    let ln = if sw.long && r.chance(1, 6) { long_len(r) } else { 0 };
+    let n = if ln > 0 && long_allowed(ln) {
+        ln
     } else if r.chance(sw.long_tok, 16) {
         if r.chance(1, 5) {
             r.range(100, 420)
@@ -180,6 +201,8 @@ fn header_block(r: &mut Rng, sw: &Swarm, extra: &[(Vec<u8>, Vec<u8>)], v: &mut V
     let mut n = if sw.max_headers == 0 { 0 } else { r.below(sw.max_headers + 1) };
     if sw.long && r.chance(1, 5) {
         n = *r.pick(&[254usize, 255, 256, 257, 300, 1000]);
+        // hundreds of lines: spend the long-token budget up front so they stay short
+        LONG_BUDGET.with(|b| b.set(LONG_BUDGET_MAX - 20_000));
     }
     let lenient_msg = r.chance(sw.lenient, 16);
     let invalid_msg = r.chance(sw.invalid, 16);
@@ -350,7 +373,8 @@ fn chunk_line(r: &mut Rng, sw: &Swarm, size: u64, v: &mut Vec<u8>) {
         v.extend(wsrun(r, 2));
         if r.chance(1, 3) {
             v.push(b';');
-            let n = if sw.long && r.chance(1, 2) { long_len(r) } else if r.chance(1, 8) { r.range(12, 300) } else { r.below(12) };
+            let ln = if sw.long && r.chance(1, 2) { long_len(r) } else { 0 };
+            let n = if ln > 0 && long_allowed(ln) { ln } else if r.chance(1, 8) { r.range(12, 300) } else { r.below(12) };
             for _ in 0..n {
                 let b = *r.pick(b"abc=\"; \t\n\0\x7f\x80\xff;19");
                 v.push(b);
@@ -398,6 +422,7 @@ fn odd_chunk_line(r: &mut Rng, v: &mut Vec<u8>) {
 }
 
 pub fn message(r: &mut Rng, sw: &Swarm, kind: Kind, v: &mut Vec<u8>) -> MsgTruth {
+    LONG_BUDGET.with(|b| b.set(0));
     let start = v.len();
     let mut t = MsgTruth { start, total: 0, head_len: 0, strict: true, method: vec![], path: vec![], version: 1, code: 0, reason: vec![], headers: vec![], body: Body::None };
     if kind != Kind::Hdrs && r.chance(sw.leading, 16) {
@@ -405,7 +430,7 @@ pub fn message(r: &mut Rng, sw: &Swarm, kind: Kind, v: &mut Vec<u8>) -> MsgTruth
             eol(r, sw, v);
         }
     }
-    let lenient_sl = r.chance(sw.lenient, 48);
+    let lenient_sl = r.chance(sw.lenient, 24);
     match kind {
         Kind::Req => {
             t.method = match r.below(8) {
@@ -424,7 +449,8 @@ pub fn message(r: &mut Rng, sw: &Swarm, kind: Kind, v: &mut Vec<u8>) -> MsgTruth
             v.push(b' ');
             if lenient_sl {
                 t.strict = false;
-                for _ in 0..r.range(1, 3) {
+                let k = if sw.long && r.chance(1, 3) { long_len(r).min(20000) } else { r.range(1, 3) };
+                for _ in 0..k {
                     v.push(b' ');
                 }
             }
@@ -443,7 +469,8 @@ pub fn message(r: &mut Rng, sw: &Swarm, kind: Kind, v: &mut Vec<u8>) -> MsgTruth
             v.push(b' ');
             if lenient_sl {
                 t.strict = false;
-                for _ in 0..r.range(1, 3) {
+                let k = if sw.long && r.chance(1, 3) { long_len(r).min(20000) } else { r.range(1, 3) };
+                for _ in 0..k {
                     v.push(b' ');
                 }
             }
@@ -482,11 +509,28 @@ pub fn message(r: &mut Rng, sw: &Swarm, kind: Kind, v: &mut Vec<u8>) -> MsgTruth
                 3 => {
                     v.push(b' ');
                     t.reason = b"Not\tFound here".to_vec();
-                    v.extend_from_slice(&t.reason);
+                    if r.chance(1, 2) {
+                        // a reason built from the whole reason alphabet, first byte included
+                        let n = if sw.long && r.chance(1, 3) { long_len(r).min(20000) } else { r.range(1, 40) };
+                        t.reason = (0..n).map(|i| if i == 0 { *r.pick(b"!~Aa0-") } else { *r.pick(b"!~Aa0- \t\t  xyz") }).collect();
+                        if sw.long && r.chance(1, 2) && t.reason.len() > 8 {
+                            // obs-text early in a long reason: reported as ""
+                            t.reason[3] = 0xe9;
+                            v.extend_from_slice(&t.reason);
+                            t.reason = Vec::new();
+                        } else {
+                            v.extend_from_slice(&t.reason);
+                        }
+                    } else {
+                        v.extend_from_slice(&t.reason);
+                    }
                 }
                 4 if lenient_sl => {
-                    v.extend_from_slice(b"   ");
-                    v.extend_from_slice(b"Spaced");
+                    let k = if sw.long && r.chance(1, 2) { long_len(r).min(20000) } else { r.range(2, 4) };
+                    for _ in 0..k {
+                        v.push(b' ');
+                    }
+                    v.extend_from_slice(*r.pick(&[&b"Spaced"[..], b"!ok", b"~", b"\tTabbed", b"!"]));
                 }
                 _ => {
                     v.push(b' ');
